@@ -263,7 +263,7 @@ def shard(cases):
 def build_cases(quick, seed):
     jit = round(core.seeded_jitter(seed, "c08") * 0.2, 3)
     cases = []
-    nmax = 5 if quick else 6
+    nmax = 5 if quick else 7
     for S in (1, 2, 3):
         for n in range(S, nmax + 1):
             for f in surjections(n, S):
@@ -312,7 +312,7 @@ def build_cases(quick, seed):
 def main():
     chk = core.Check(
         PID, "exploration",
-        "surveys S<=3; every surjection of N<=5 (quick) / 6 time slots onto surveys (all interleavings); layouts with "
+        "surveys S<=3; every surjection of N<=5 (quick) / 7 time slots onto surveys (all interleavings); layouts with "
         "identical epochs in two surveys; 12 surveys with 12 distinct offset priors; list / tuple / dict(int keys) / dict(str keys) input in every survey order; "
         "sources internally scrambled; unique velocity/error tags identify each observation. Oracle on "
         "validate_prepare_data and (sub-product) marginal_ln_likelihood vs the reference marginal with correct labels. "
